@@ -461,7 +461,13 @@ pub fn dispatch(f: &[&str]) -> String {
             use chialisp::compiler::compiler::DefaultCompilerOpts;
             use chialisp::compiler::repl::Repl;
             let text = String::from_utf8_lossy(&hex::decode(f[1]).unwrap()).to_string();
-            let opts = Rc::new(DefaultCompilerOpts::new("*repl*"));
+            let mut opts: Rc<dyn chialisp::compiler::comptypes::CompilerOpts> = Rc::new(DefaultCompilerOpts::new("*repl*"));
+            // optional second field: the name of a dialect pseudo-file (e.g. *standard-cl-23*) to run the REPL under
+            if f.len() > 2 && !f[2].is_empty() {
+                if let Some(d) = chialisp::compiler::dialect::KNOWN_DIALECTS.get(f[2]) {
+                    opts = opts.set_dialect(d.accepted.clone());
+                }
+            }
             let mut repl = Repl::new(opts, rc_runner());
             let mut a = Allocator::new();
             let mut outs = Vec::new();
@@ -481,6 +487,67 @@ pub fn dispatch(f: &[&str]) -> String {
             match chialisp::classic::clvm_tools::debug::check_unused(opts, &text) {
                 Ok((ok, msg)) => format!("OK {} {}", ok, msg.replace(['\n', '\t'], " ")),
                 Err(e) => format!("ERR {} {}", e.0, e.1.replace(['\n', '\t'], " ")),
+            }
+        }
+        "toposort" => {
+            // toposort <items>: items separated by '|', each "n1,n2;h1,h2" (needs;has); the generic util::toposort
+            use std::collections::HashSet;
+            let parse_set = |t: &str| -> HashSet<u32> { t.split(',').filter(|x| !x.is_empty()).map(|x| x.parse().unwrap()).collect() };
+            let items: Vec<(HashSet<u32>, HashSet<u32>)> = if f[1].is_empty() { vec![] } else {
+                f[1].split('|').map(|it| { let mut p = it.split(';'); (parse_set(p.next().unwrap_or("")), parse_set(p.next().unwrap_or(""))) }).collect()
+            };
+            match chialisp::util::toposort(&items, (), |_possible, it: &(HashSet<u32>, HashSet<u32>)| Ok(it.0.clone()), |it| it.1.clone()) {
+                Ok(order) => format!("OK {}", order.iter().map(|x| x.index.to_string()).collect::<Vec<_>>().join(",")),
+                Err(()) => "DEADLOCK".to_string(),
+            }
+        }
+        "assign_stages" => {
+            // assign_stages <hex of an (assign ...) form>: frontend parse, toposort_assign_bindings, hoist_assign_form;
+            // reports the binding order and the stages of parallel lets, outermost first
+            use chialisp::compiler::compiler::DefaultCompilerOpts;
+            use chialisp::compiler::comptypes::{BindingPattern, BodyForm, LetFormKind};
+            use chialisp::compiler::frontend::compile_bodyform;
+            use chialisp::compiler::sexp::parse_sexp;
+            use chialisp::compiler::srcloc::Srcloc;
+            use std::borrow::Borrow;
+            let text = String::from_utf8_lossy(&hex::decode(f[1]).unwrap()).to_string();
+            let opts = Rc::new(DefaultCompilerOpts::new("*verif*"));
+            let forms = match parse_sexp(Srcloc::start("*verif*"), text.bytes()) {
+                Ok(x) => x,
+                Err(e) => return format!("ERR parse {}", e.1),
+            };
+            let bf = match compile_bodyform(opts, forms[0].clone()) {
+                Ok(x) => x,
+                Err(e) => return format!("ERR frontend {}", e.1),
+            };
+            let pat = |p: &BindingPattern| match p {
+                BindingPattern::Name(n) => String::from_utf8_lossy(n).to_string(),
+                BindingPattern::Complex(s) => s.to_string(),
+            };
+            if let BodyForm::Let(LetFormKind::Assign, letdata) = &bf {
+                let order = match chialisp::compiler::codegen::toposort_assign_bindings(&letdata.loc, &letdata.bindings) {
+                    Ok(o) => o.iter().map(|x| x.index.to_string()).collect::<Vec<_>>().join(","),
+                    Err(e) => return format!("DEADLOCK {}", e.1),
+                };
+                match chialisp::compiler::codegen::hoist_assign_form(letdata) {
+                    Ok(mut cur) => {
+                        let mut stages = Vec::new();
+                        loop {
+                            let next = if let BodyForm::Let(LetFormKind::Parallel, ld) = &cur {
+                                stages.push(ld.bindings.iter().map(|b| pat(&b.pattern)).collect::<Vec<_>>().join(","));
+                                let inner: &BodyForm = ld.body.borrow();
+                                inner.clone()
+                            } else {
+                                break;
+                            };
+                            cur = next;
+                        }
+                        format!("OK {} # {}", order, stages.join("|"))
+                    }
+                    Err(e) => format!("DEADLOCK {}", e.1),
+                }
+            } else {
+                "ERR not an assign form".to_string()
             }
         }
         other => format!("BADOP {}", other),
